@@ -84,14 +84,15 @@ extern int mpt_vprintf(MPT_STRUCT(array) *arr, const char *format, va_list args)
 	if (!(base = mpt_array_slice(arr, used, len))) {
 		return MPT_ERROR(BadOperation);
 	}
+	buf = arr->_buf;
 	size = used + len;
-	if ((rval = vsnprintf(base, len, format, args)) > 0) {
-		used += rval;
-		if (used < size) {
-			base[rval] = '\0';
-			return rval;
-		}
+	if ((rval = vsnprintf(base, len, format, args)) > 0
+	 && (used + rval) < size) {
+		base[rval] = '\0';
+		buf->_used = used + rval;
+		return rval;
 	}
+	buf->_used = used;
 	return MPT_ERROR(BadValue);
 }
 
